@@ -116,6 +116,18 @@ def ops(S):
     for i in range(len(S.handles)):
         for v in (0, 1, 2):
             out.append(("hwrite", i, v))
+    if not S.readonly:
+        for path in _paths(T.getRoot()):
+            if len(path) != S.depth - 1:
+                continue
+            f = _fiber_at(T, path)
+            for i in range(len(f.coords)):
+                for j in range(len(f.coords)):
+                    vi = S.model.get(path + (f.coords[i],), S.default)
+                    vj = S.model.get(path + (f.coords[j],), S.default)
+                    if i != j and isinstance(vi, int) and isinstance(vj, int) and 0 <= vi + vj <= VMAX:
+                        # element handles obtained by position: f[i] += f[j]
+                        out.append(("elemadd", path, i, j))
     for path in _paths(T.getRoot()):
         lvl = len(path)
         if lvl not in S.poslevels:
@@ -250,6 +262,18 @@ def step(S, op):
             got = acc.getPayload(*pt)
             if unbox(got) != val:
                 V("handle-write", "later-read", val, unbox(got))
+        elif k == "elemadd":
+            _, path, i, j = op
+            f = _fiber_at(T, path)
+            ci, cj = f.coords[i], f.coords[j]
+            el = f[i]
+            el += f[j]
+            _put(S, path + (ci,), S.model.get(path + (ci,), S.default) + S.model.get(path + (cj,), S.default))
+            if content(T.getRoot(), S.default) != S.model:
+                V("element-handle", "content", dict(S.model), content(T.getRoot(), S.default), "act:+=element")
+            got = acc.getPayload(*(path + (ci,)))
+            if unbox(got) != S.model.get(path + (ci,), S.default):
+                V("element-handle", "later-read", S.model.get(path + (ci,), S.default), unbox(got), "act:+=element")
         else:
             _, path, c, sp = op
             f = _fiber_at(T, path)
@@ -291,7 +315,7 @@ def step(S, op):
                     V("getPayloadRef", "content", dict(S.model), content(T.getRoot(), S.default), sfeat)
     except Exception as ex:
         V({"get": "getPayload", "ref": "getPayloadRef", "hwrite": "handle-write", "pos": "getPosition",
-           "posref": "getPositionRef", "getsp": "getPayload", "refsp": "getPayloadRef"}[k],
+           "posref": "getPositionRef", "getsp": "getPayload", "refsp": "getPayloadRef", "elemadd": "element-handle"}[k],
           "exception:" + type(ex).__name__, None, core.tb_tail(ex), "site:" + core.exc_site(ex))
     return out
 
